@@ -99,6 +99,12 @@ def State.gateReady (s : State) (g : Nat) (op : Nat) : Bool :=
   | some v => v.isOpen && !v.waiting.contains op
   | none => false
 
+/-- the result slot a future job signals when it completes -/
+def JobKind.res : JobKind → Option Nat
+  | .fut _ _ r => some r
+  | .after _ _ r => some r
+  | _ => none
+
 def JobKind.op : JobKind → Option Nat
   | .plain op => some op
   | .immediate _ (.user op) => some op
@@ -286,10 +292,11 @@ def stepAct (s : State) (a : Nat) : Option (State × Obs) :=
       | none => none
       | some (st, w) =>
         let r := latchWake st
-        let s1 := { s with latches := s.latches.set l (r.1, if r.2 then none else w) }
-        match r.2, w with
-        | true, some w' => some (s1.goto a (.waking [w'] k), .csW l)
-        | _, _ => some (s1.goto a k, .csW l)
+        if r.2 then
+          match w with
+          | some w' => some (({ s with latches := s.latches.set l (r.1, none) }).goto a (.waking [w'] k), .csW l)
+          | none => some (({ s with latches := s.latches.set l (r.1, none) }).goto a k, .csW l)
+        else some (({ s with latches := s.latches.set l (r.1, w) }).goto a k, .csW l)
   | .dwCs d k =>
       match s.doubles[d]? with
       | none => none
@@ -306,10 +313,9 @@ def stepAct (s : State) (a : Nat) : Option (State × Obs) :=
         let (s1, j) := s.newJob q kind
         let r := desyncPush v.state
         let s2 := s1.setQ q { v with jobs := v.jobs ++ [j], state := r.1 }
-        match r.2 with
-        | .schedule => some (s2.goto a (.dsSched q), .csQ q)
-        | .none => some (s2.goto a .ret, .csQ q)
-        | .panic => some (s2.goto a .panicked, .csQ q)
+        if r.2 = .schedule then some (s2.goto a (.dsSched q), .csQ q)
+        else if r.2 = .none then some (s2.goto a .ret, .csQ q)
+        else some (s2.goto a .panicked, .csQ q)
   | .dsSched q =>
       if s.schedLock.isSome then none else
       some (({ s with schedule := s.schedule ++ [q] }).goto a (.stReap .ret), .csS)
@@ -320,27 +326,25 @@ def stepAct (s : State) (a : Nat) : Option (State × Obs) :=
       | some v =>
         let r := syncDecide v.state v.jobs.isEmpty
         let s1 := s.setQ q { v with state := r.1 }
-        match r.2 with
-        | .immediate =>
+        if r.2 = .immediate then
           let j := s1.jobs.length
           let s2 := { s1 with jobs := s1.jobs ++ [({ q := q, kind := .immediate a b, ph := .held a, begun := true, ended := false, reg := none } : Job)] }
           some ((s2.setHolder q (some a)).goto a (.begin b (.siIdle q j)), .csQ q)
-        | .drain => some ((s1.setHolder q (some a)).goto a (.sdPush q b), .csQ q)
-        | .background => some (s1.goto a (.sbReg q b), .csQ q)
-        | _ => some (s1.goto a .panicked, .csQ q)
+        else if r.2 = .drain then some ((s1.setHolder q (some a)).goto a (.sdPush q b), .csQ q)
+        else if r.2 = .background then some (s1.goto a (.sbReg q b), .csQ q)
+        else some (s1.goto a .panicked, .csQ q)
   | .tsDecide q b =>
       match s.qs[q]? with
       | none => none
       | some v =>
         let r := trySyncDecide v.state v.jobs.isEmpty
         let s1 := s.setQ q { v with state := r.1 }
-        match r.2 with
-        | .immediate =>
+        if r.2 = .immediate then
           let j := s1.jobs.length
           let s2 := { s1 with jobs := s1.jobs ++ [({ q := q, kind := .immediate a b, ph := .held a, begun := true, ended := false, reg := none } : Job)] }
           some ((s2.setHolder q (some a)).goto a (.begin b (.siIdle q j)), .csQ q)
-        | .busy => some ((s1.setAct a { act with pc := .ret, result := some 1 }), .csQ q)
-        | _ => some (s1.goto a .panicked, .csQ q)
+        else if r.2 = .busy then some ((s1.setAct a { act with pc := .ret, result := some 1 }), .csQ q)
+        else some (s1.goto a .panicked, .csQ q)
   | .siIdle q j =>
       match s.jobs[j]? with
       | none => none
@@ -416,10 +420,9 @@ def stepAct (s : State) (a : Nat) : Option (State × Obs) :=
       | some v =>
         let r := runOnePending v.state
         let s1 := s.setQ q { v with state := r.1 }
-        match r.2 with
-        | .park => some (s1.goto a (.rjParkCheck q j k), .csQ q)
-        | .continue => some (s1.goto a (.jobStart j (.caller q) k), .csQ q)
-        | .panic => some (s1.goto a .panicked, .csQ q)
+        if r.2 = .park then some (s1.goto a (.rjParkCheck q j k), .csQ q)
+        else if r.2 = .continue then some (s1.goto a (.jobStart j (.caller q) k), .csQ q)
+        else some (s1.goto a .panicked, .csQ q)
   | .rjParkCheck q j k =>
       match parkCheck (s.qState q) with
       | .continue => some (s.goto a (.jobStart j (.caller q) k), .csQ q)
@@ -485,8 +488,7 @@ def stepAct (s : State) (a : Nat) : Option (State × Obs) :=
       match s.jobs[j]? with
       | none => none
       | some jb =>
-        let res := match jb.kind with | .fut _ _ r => some r | .after _ _ r => some r | _ => none
-        match res with
+        match jb.kind.res with
         | none => none
         | some r =>
           match s.futs[r]? with
@@ -500,8 +502,7 @@ def stepAct (s : State) (a : Nat) : Option (State × Obs) :=
       match s.jobs[j]? with
       | none => none
       | some jb =>
-        let res := match jb.kind with | .fut _ _ r => some r | .after _ _ r => some r | _ => none
-        match res with
+        match jb.kind.res with
         | none => none
         | some r =>
           match s.futs[r]? with
@@ -673,14 +674,19 @@ def stepAct (s : State) (a : Nat) : Option (State × Obs) :=
   | .fsTake2 _ => none
   -- ---------------------------------------------------------------- pool management
   | .smSet n => some (({ s with maxThreads := n }).goto a .ret, .csX)
-  | .dpRead => some (s.goto a (.dpPop s.maxThreads), .csX)
-  | .dpPop m =>
-      if s.threadsLock.isSome then none else
-      -- pops from the back while len > max; each popped thread's sender is dropped
-      let keep := s.threadsVec.take (if despawnContinues s.threadsVec.length m then m else s.threadsVec.length)
-      let gone := (s.threadsVec.drop keep.length).reverse
-      let pts := gone.foldl (fun (pts : List PThr) p => match pts[p]? with | some pt => pts.set p { pt with hungUp := true } | none => pts) s.pthreads
-      some (({ s with threadsVec := keep, pthreads := pts }).goto a (.dpJoin gone), .csT)
+  | .dpRead => some (s.goto a (.dpLock s.maxThreads), .csX)
+  | .dpLock m =>
+      if s.threadsLock.isSome then none else some (({ s with threadsLock := some a }).goto a (.dpHang m []), .acqT)
+  | .dpHang m gone =>
+      -- pops from the back while len > max; each popped thread's sender is dropped (the thread's recv then fails)
+      if despawnContinues s.threadsVec.length m then
+        match s.threadsVec.getLast? with
+        | none => none
+        | some p =>
+          match s.pthreads[p]? with
+          | none => none
+          | some pt => some ((({ s with threadsVec := s.threadsVec.dropLast }).setPThr p { pt with hungUp := true }).goto a (.dpHang m (gone ++ [p])), .hangup p)
+      else some (({ s with threadsLock := none }).goto a (.dpJoin gone), .csT)
   | .dpJoin todo =>
       match todo with
       | [] => some (s.goto a .ret, .silent)
